@@ -158,7 +158,7 @@ fn schedule_pending(
                 let ring = iou.rings.get_mut(&ring_fd).expect("ring vanished");
                 ring.schedule(
                     entry.user_data,
-                    now + latency,
+                    now.saturating_add(latency),
                     PendingApply::Read {
                         fd,
                         ptr,
@@ -189,7 +189,7 @@ fn schedule_pending(
                 let ring = iou.rings.get_mut(&ring_fd).expect("ring vanished");
                 ring.schedule(
                     entry.user_data,
-                    now + latency,
+                    now.saturating_add(latency),
                     PendingApply::Write {
                         fd,
                         ptr,
@@ -201,7 +201,7 @@ fn schedule_pending(
             OpKind::Fsync { fd } => {
                 let latency = fs.calculate_latency(false);
                 let ring = iou.rings.get_mut(&ring_fd).expect("ring vanished");
-                ring.schedule(entry.user_data, now + latency, PendingApply::Fsync { fd });
+                ring.schedule(entry.user_data, now.saturating_add(latency), PendingApply::Fsync { fd });
             }
             OpKind::AsyncCancel { target_user_data } => {
                 let ring = iou.rings.get_mut(&ring_fd).expect("ring vanished");
